@@ -549,6 +549,9 @@ class _InlineNewHelpers(_InlineMethods):
         if not self.new_funcs and not new_methods:
             return False
         self.touched = {}
+        self.expanded = set()
+        self.records = _record_types(self.tree)
+        self._restore_closures(classes, new_methods)
         self.host_names = {}
         self.records = _record_types(self.tree)
         for _ in range(3):
@@ -568,11 +571,170 @@ class _InlineNewHelpers(_InlineMethods):
                 _propagate_temporaries(fn)
         return True
 
+    def _restore_closures(self, classes, new_methods):
+        """a new helper that is only ever called -- at two or more places -- from ONE function is a nested function that was lifted out of it:
+        it is put back as a nested function; parameters that receive the same plain name at every call become the closure variables they
+        stand for, an unpacking of a tuple of such names (or a field read of a small record of them) becomes those names"""
+        import copy
+        hosts = [(None, fn) for fn in self.module_funcs.values()] + [(cls, m) for cls in classes for m in cls.body if isinstance(m, ast.FunctionDef)]
+        cands = [(None, h) for h in self.new_funcs.values()] + [(cls, h) for cls in classes for h in new_methods.get(cls.name, {}).values()]
+        for (hcls, H) in cands:
+            if H.decorator_list and not self._is_static(H):
+                continue
+            if H.args.vararg or H.args.kwarg or any(isinstance(x, (ast.Yield, ast.YieldFrom, ast.Global, ast.Nonlocal)) for x in ast.walk(H)):
+                continue
+            static = self._is_static(H)
+            sites = {}
+            other_mentions = 0
+            for (gcls, G) in hosts:
+                if G is H:
+                    continue
+                grecv = G.args.args[0].arg if (gcls is not None and G.args.args and not G.decorator_list) else None
+                calls = set()
+                for x in ast.walk(G):
+                    if isinstance(x, ast.Call):
+                        f_ = x.func
+                        if hcls is None and isinstance(f_, ast.Name) and f_.id == H.name:
+                            sites.setdefault(id(G), (gcls, G, []))[2].append(x)
+                            calls.add(id(f_))
+                        elif hcls is not None and gcls is hcls and isinstance(f_, ast.Attribute) and f_.attr == H.name and isinstance(f_.value, ast.Name) and f_.value.id == grecv:
+                            sites.setdefault(id(G), (gcls, G, []))[2].append(x)
+                            calls.add(id(f_))
+                for x in ast.walk(G):
+                    if id(x) in calls:
+                        continue
+                    if (isinstance(x, ast.Name) and x.id == H.name) or (isinstance(x, ast.Attribute) and x.attr == H.name):
+                        other_mentions += 1
+            if other_mentions or len(sites) != 1:
+                continue
+            (gcls, G, calls) = next(iter(sites.values()))
+            if len(calls) < 2 or any(isinstance(a, ast.Starred) for c in calls for a in c.args) or any(k.arg is None for c in calls for k in c.keywords):
+                continue
+            plain = [a.arg for a in H.args.posonlyargs + H.args.args]
+            recv_m = None
+            if hcls is not None and not static:
+                recv_m, plain = plain[0], plain[1:]
+            kwonly = [a.arg for a in H.args.kwonlyargs]
+            stored = {x.id for x in ast.walk(H) if isinstance(x, ast.Name) and isinstance(x.ctx, (ast.Store, ast.Del))}
+            # what every call passes for each parameter
+            passed = {p_: [] for p_ in plain + kwonly}
+            ok = True
+            for c in calls:
+                if len(c.args) > len(plain):
+                    ok = False
+                    break
+                seen = set()
+                for p_, a in zip(plain, c.args):
+                    passed[p_].append(a)
+                    seen.add(p_)
+                for k in c.keywords:
+                    if k.arg not in passed or k.arg in seen:
+                        ok = False
+                        break
+                    passed[k.arg].append(k.value)
+                    seen.add(k.arg)
+                for p_ in passed:
+                    if p_ not in seen:
+                        passed[p_].append(None)
+            if not ok:
+                continue
+            closure = {}
+            gstores = _stores(G)
+            for p_, vals in passed.items():
+                if vals and all(isinstance(v, ast.Name) for v in vals) and len({v.id for v in vals}) == 1 and p_ not in stored:
+                    a = vals[0].id
+                    if a != p_ and a in stored:
+                        continue
+                    if gstores.get(a, 0) > 1:
+                        continue        # a name that changes in the host (a loop variable, a running index) is a real argument
+                    closure[p_] = a
+            if not closure and recv_m is None:
+                continue
+            mapping = dict(closure)
+            if recv_m is not None:
+                grecv = G.args.args[0].arg
+                mapping[recv_m] = grecv
+            new = copy.deepcopy(H)
+            new.decorator_list = []
+            keep_pos = [a for a in new.args.posonlyargs + new.args.args if a.arg not in closure and a.arg != recv_m]
+            n_def = len(new.args.defaults)
+            all_pos = new.args.posonlyargs + new.args.args
+            dmap = {a.arg: d for a, d in zip(all_pos[len(all_pos) - n_def:], new.args.defaults)} if n_def else {}
+            new.args.posonlyargs = []
+            new.args.args = keep_pos
+            new.args.defaults = [dmap[a.arg] for a in keep_pos if a.arg in dmap]
+            if any(a.arg in dmap for a in keep_pos) and not all(a.arg in dmap for a in keep_pos[[a.arg in dmap for a in keep_pos].index(True):]):
+                continue
+            kk = [(a, d) for a, d in zip(new.args.kwonlyargs, new.args.kw_defaults) if a.arg not in closure]
+            new.args.kwonlyargs = [a for a, _d in kk]
+            new.args.kw_defaults = [d for _a, d in kk]
+            ren = _Rename({k: v for k, v in mapping.items() if k != v})
+            new.body = [ren.visit(b) for b in new.body]
+            # aggregates of G that the lifted function took apart
+            aggs = {}
+            for x in ast.walk(G):
+                if isinstance(x, ast.Assign) and len(x.targets) == 1 and isinstance(x.targets[0], ast.Name) and gstores.get(x.targets[0].id) == 1:
+                    v = x.value
+                    if isinstance(v, ast.Tuple) and v.elts and all(isinstance(e, ast.Name) for e in v.elts):
+                        aggs[x.targets[0].id] = ('tuple', [e.id for e in v.elts])
+                    elif isinstance(v, ast.Call) and isinstance(v.func, ast.Name) and v.func.id in self.records and all(k.arg for k in v.keywords):
+                        fields = self.records[v.func.id]
+                        vals = dict(zip(fields, v.args))
+                        vals.update({k.arg: k.value for k in v.keywords})
+                        if set(vals) == set(fields) and all(isinstance(a, ast.Name) for a in vals.values()):
+                            aggs[x.targets[0].id] = ('record', {f_: a.id for f_, a in vals.items()}, [vals[f_].id for f_ in fields])
+            body2 = []
+            for b in new.body:
+                if isinstance(b, ast.Assign) and len(b.targets) == 1 and isinstance(b.targets[0], ast.Tuple) and isinstance(b.value, ast.Name) and b.value.id in aggs:
+                    names = aggs[b.value.id][1] if aggs[b.value.id][0] == 'tuple' else aggs[b.value.id][2]
+                    tn = [e.id if isinstance(e, ast.Name) else None for e in b.targets[0].elts]
+                    if tn == names:
+                        continue        # the names are the closure variables themselves
+                body2.append(b)
+            new.body = body2 or [ast.copy_location(ast.Pass(), H)]
+            still_stored = {x.id for x in ast.walk(new) if isinstance(x, ast.Name) and isinstance(x.ctx, (ast.Store, ast.Del))}
+
+            class _F(ast.NodeTransformer):
+                def visit_Attribute(self_, node):
+                    self_.generic_visit(node)
+                    if isinstance(node.ctx, ast.Load) and isinstance(node.value, ast.Name) and node.value.id in aggs and aggs[node.value.id][0] == 'record' and \
+                            node.attr in aggs[node.value.id][1] and aggs[node.value.id][1][node.attr] not in still_stored:
+                        return ast.copy_location(ast.Name(id=aggs[node.value.id][1][node.attr], ctx=ast.Load()), node)
+                    return node
+
+                def visit_Subscript(self_, node):
+                    self_.generic_visit(node)
+                    if isinstance(node.ctx, ast.Load) and isinstance(node.value, ast.Name) and node.value.id in aggs and isinstance(node.slice, ast.Constant) and isinstance(node.slice.value, int):
+                        names = aggs[node.value.id][1] if aggs[node.value.id][0] == 'tuple' else aggs[node.value.id][2]
+                        if 0 <= node.slice.value < len(names) and names[node.slice.value] not in still_stored:
+                            return ast.copy_location(ast.Name(id=names[node.slice.value], ctx=ast.Load()), node)
+                    return node
+            new = _F().visit(new)
+            # the calls
+            for c in calls:
+                c.func = ast.copy_location(ast.Name(id=H.name, ctx=ast.Load()), c.func)
+                c.args = [a for p_, a in zip(plain, c.args) if p_ not in closure]
+                c.keywords = [k for k in c.keywords if k.arg not in closure]
+            # where: before the first statement of G that contains one of the calls
+            call_ids = {id(c) for c in calls}
+            pos = next((i for i, st in enumerate(G.body) if any(id(x) in call_ids for x in ast.walk(st))), len(G.body))
+            new._restored_closure = True
+            G.body.insert(pos, new)
+            ast.fix_missing_locations(G)
+            # the lifted definition is gone
+            if hcls is None:
+                self.tree.body = [st for st in self.tree.body if st is not H]
+                self.new_funcs.pop(H.name, None)
+                self.module_funcs.pop(H.name, None)
+            else:
+                hcls.body = [m for m in hcls.body if m is not H] or [ast.Pass()]
+                new_methods.get(hcls.name, {}).pop(H.name, None)
+
     def _drop_dead_helpers(self, classes, new_methods):
         """a private new helper that was expanded at every place it is mentioned in this module is no longer part of the analysed program (rules
         that look at every function of a module would otherwise see its statements twice)"""
-        cands = {k: v for k, v in self.new_funcs.items() if k.startswith('_')}
-        mcands = {(c, k): v for c, ms in new_methods.items() for k, v in ms.items() if k.startswith('_')}
+        cands = {k: v for k, v in self.new_funcs.items() if k.startswith('_') and id(v) in self.expanded}
+        mcands = {(c, k): v for c, ms in new_methods.items() for k, v in ms.items() if k.startswith('_') and id(v) in self.expanded}
         if not cands and not mcands:
             return
         mentioned = set()
@@ -822,7 +984,9 @@ class _InlineNewHelpers(_InlineMethods):
         m, has_recv = self._callee(call, host)
         self.touched[id(host)] = host
         try:
-            return self._expand(st, call, target, host, m, has_recv=has_recv, tail=tail, on_return=on_return, keep=keep)
+            res = self._expand(st, call, target, host, m, has_recv=has_recv, tail=tail, on_return=on_return, keep=keep)
+            self.expanded.add(id(m))
+            return res
         except Exception:
             return None if on_return is not None else [st]
 
@@ -1269,6 +1433,17 @@ def _quick_has_unknown_or_vanished(trees):
     return False
 
 
+def _calls_named(node, *names):
+    return any(isinstance(x, ast.Call) and ((isinstance(x.func, ast.Name) and x.func.id in names) or (isinstance(x.func, ast.Attribute) and x.func.attr in names)) for x in ast.walk(node))
+
+
+NESTED_ROLES = {
+    'xdoctest.parser.DoctestParser._package_chunk.slice_example': lambda n: _calls_named(n, 'DoctestPart'),
+    'xdoctest.utils.util_import._syspath_modname_to_modpath.check_dpath': lambda n: _calls_named(n, 'isfile') and any(isinstance(x, ast.For) for x in ast.walk(n)),
+    'xdoctest.core.parse_freeform_docstr_examples.doctest_from_parts': lambda n: _calls_named(n, 'DocTest'),
+}
+
+
 class Program:
     def __init__(self, sources, root='<memory>', reuse=None):
         self.root = root
@@ -1307,6 +1482,15 @@ class Program:
             self.modules[name] = mod
         for mod in self.modules.values():
             self._index_module(mod)
+        # nested functions that rules refer to by their known name are also found by what they do (a lifted and restored closure may have a new name)
+        for q, pred in NESTED_ROLES.items():
+            hostq, name = q.rsplit('.', 1)
+            host = self.funcs.get(hostq)
+            if host is not None and name not in host.nested:
+                cands = [g for g in host.nested.values() if pred(g.node)]
+                if len(cands) == 1:
+                    host.nested[name] = cands[0]
+                    self.funcs[q] = cands[0]
         self.stubs = _load_stub_types(self, sources)
 
     # -- indexing -----------------------------------------------------
